@@ -186,4 +186,19 @@ PROPS = {
                                   "segment lengths in the exact reference are rational sqrt brackets of relative width 2^-128"],
         assumptions=["valid polygons; finite ordinates; at least one segment of positive length in line inputs"],
     ),
+    "C13": dict(
+        modules=["GeomVerif.Properties.C13"],
+        n_quick=2500, n_thorough=60000, thorough_seeds=3, min_theorems=3,
+        rule="every sequence of 1..4 points on the 3x3 integer grid (7380 inputs, exhaustive, each run; thorough: up to 5 points, 66429) + random "
+             "multisets of 1..12, 45..56 and 51..200 points on grids 3/5/15/200/2^20 (collinear sets, many hull vertices with interior "
+             "duplicates, random), stride 2..4 with identifying extra ordinates, through ConvexHullFlat or ConvexHull; plus the repaired D4 inputs. "
+             "Go's hull (type + coordinates) is compared with the Lean mirror and judged against the exact monotone-chain hull; the input slice is "
+             "snapshotted before and after. non-trivial = all",
+        nontrivial=lambda op, inp: True,
+        trusted_base=TB_COMMON + ["modelled: getConvexHull, UniqueCoords/TreeSet (as sorted insertion), reduce/computeOctRing/computeOctPts, preSort, radial comparator, "
+                                  "grahamScan/CoordStack, cleanRing, lineOrPolygon; orientation exact (C10), point-in-ring = C11 model",
+                                  "sort.Sort modelled by its contract (the radial comparator is a strict total order on distinct points above the focal point, so the sorted permutation is unique)",
+                                  "Graham-scan optimality is decided by the exact oracle per input, not proved"],
+        assumptions=["integer-grid coordinates up to 2^20 (squared distances exact)"],
+    ),
 }
